@@ -81,3 +81,71 @@ def c09(work, tier, seed):
                                "(both transports; data both ways, keep-alives, close / protocol error / reset while the host is sending); data-race reports and fatal errors on stderr are sensor events, frames seen by clients must be whole",
                                jobs=6, gwbin="rdpgw-race")
     return out
+
+
+# ------------------------------------------------------------------ C10
+
+def hostile_catalogue(work):
+    dot = work.path("hostile.dot")
+    r = design_check("Hostile", "MC_Hostile.cfg", work, workers=4, timeout=300, extra=["-dump", "dot", dot])
+    nodes, roots, edges = parse_dot(dot)
+    pairs = set()
+    for n, lab in nodes.items():
+        last = parse_tla_value(state_vars(lab)["last"])
+        if last["ep"] != "none":
+            pairs.add((last["ep"], last["cls"]))
+    return r, sorted(pairs)
+
+
+def c10(work, tier, seed):
+    design, pairs = hostile_catalogue(work)
+    rng = random.Random(seed)
+    scripts = []
+
+    def cfg(auth, tls=False, buffers=False):
+        token = auth == "openid"
+        c = {"tokenAuth": token, "smartCard": False, "auth": auth, "sel": "roundrobin", "hosts": [["H1", ":", "PA"]], "verifyIp": True, "idle": 0, "tls": tls}
+        if auth == "kerberos":
+            c["auths"] = ["kerberos"]
+        if buffers:
+            c["sendBuf"], c["recvBuf"] = 65536, 65536
+        return c
+
+    def add(ep, cls, c, transport="ws", phase="init"):
+        token = c["auth"] == "openid"
+        user = "user1" if token else ("7" if c["auth"] == "local" else "nuser1")
+        scripts.append({"id": "x%05d" % len(scripts), "origin": "%s/%s" % (ep, cls), "ep": ep, "cls": cls, "phase": phase, "cfg": c, "transport": transport,
+                        "tun": dict(fs.H_A, user=user), "steps": fs.session(token)})
+    phases = ["init", "hs", "created", "authorized", "channel"]
+    for ep, cls in pairs:
+        if ep == "tunnel":
+            combos = [("openid", False, False), ("ntlm", False, True), ("local", True, False), ("local", True, True)]
+            for ci, (a, tls, buf) in enumerate(combos):
+                for tr in ("ws", "legacy"):
+                    phs = phases if tier == "thorough" else [phases[(stable_hash(cls + a + tr) + ci) % 5], "init"]
+                    for ph in sorted(set(phs)):
+                        add(ep, cls, cfg(a, tls, buf), tr, ph)
+        elif ep == "legacy-order":
+            for a in ("openid", "ntlm"):
+                add(ep, cls, cfg(a), "legacy")
+        elif ep == "authorization":
+            add(ep, cls, cfg("ntlm"))
+            add(ep, cls, cfg("local", tls=True))
+            add(ep, cls, cfg("kerberos"))
+        elif ep == "ntlm-message":
+            for rep in range(1 if tier == "quick" else 5):
+                add(ep, cls, cfg("ntlm"))
+        elif ep == "kdcproxy":
+            add(ep, cls, cfg("kerberos"))
+        elif ep == "web":
+            add(ep, cls, cfg("openid"))
+            add(ep, cls, cfg("openid", buffers=True))
+    out, rep, res = fa.generic("C10", work, tier, seed, "hostile", "HostileTrace", scripts, design,
+                               lambda v: "%s/%s/%s" % (v["guard"], v["a"], v["b"]),
+                               "Hostile.tla: catalogue of hostile input classes per entry point; the specification has no action that panics or stops a process (design). Conformance on the real binaries (gateway with TLS on/off, "
+                               "socket buffers unset/set, openid / ntlm / local / kerberos; real rdpgw-auth): every class of the catalogue (packet headers with length 0..7, huge, truncated; unknown and response types; truncated and "
+                               "over-long inner lengths; odd UTF-16; text / empty websocket messages; every ordering of the legacy IN/OUT requests; Authorization strings; NTLM messages relayed to the auth service; KDC-proxy bodies; web "
+                               "endpoints) in several phases and on both transports; after each input: hook/stderr panic sensor, process liveness of gateway and auth service, a probe request on a new connection, handler exit after close",
+                               owns=lambda v: guard_property(v["guard"]) == "C10", jobs=12)
+    out.coverage["catalogue_size"] = len(pairs)
+    return out
